@@ -42,11 +42,7 @@ class Explorer:
     """Runs `body(explorer)` once per feasible path.  `choose` is the only source of forking."""
 
     def __init__(self, base_hyps=()):
-        self.solver = z3.Solver()
-        self.solver.set('timeout', FEAS_TIMEOUT_MS)
         self.base_hyps = list(base_hyps)
-        for h in self.base_hyps:
-            self.solver.add(h)
         self.script: List[int] = []
         self.trace: List[List[int]] = []
         self.pos = 0
@@ -69,49 +65,56 @@ class Explorer:
             if not cond:
                 raise Infeasible()
             return
-        cond = z3.simplify(cond)
-        if z3.is_true(cond):
+        sc = z3.simplify(cond)
+        if z3.is_true(sc):
             return
-        if z3.is_false(cond):
+        if z3.is_false(sc):
             raise Infeasible()
+        # the original term is kept (z3's simplifier rewrites sequence terms into internal symbols
+        # such as seq.nth_i / seq.nth_u that other back ends do not know and that obscure the goal)
         self.st.pc.append(cond)
-        self.solver.add(cond)
+        cond = sc
+        # redundant but helpful: "length is zero" also as "is the empty sequence" (the sequence solver
+        # does not propagate the former into arguments of recursive functions quickly)
+        e = _empty_fact(cond)
+        if e is not None:
+            self.st.pc.append(e)
+
+    def _quick(self, extra):
+        """one bounded query on a fresh solver (an incremental solver that has timed out once can
+        hang in push/pop with recursive functions over sequences: observed, so never reused)"""
+        self.feas_queries += 1
+        s = z3.Solver()
+        s.set('timeout', FEAS_TIMEOUT_MS)
+        s.add(*self.base_hyps)
+        s.add(*self.st.pc)
+        s.add(*extra)
+        return s.check()
 
     def feasible(self, cond=None) -> bool:
         """pc (and cond) may be satisfiable; `unknown` counts as feasible."""
-        self.feas_queries += 1
-        if cond is None:
-            return self.solver.check() != z3.unsat
-        self.solver.push()
-        try:
-            self.solver.add(cond)
-            return self.solver.check() != z3.unsat
-        finally:
-            self.solver.pop()
+        return self._quick([] if cond is None else [cond]) != z3.unsat
 
     def entails(self, cond) -> bool:
         """pc => cond proved by the quick solver (used only as an optimisation / for modelling choices)."""
-        self.feas_queries += 1
-        self.solver.push()
-        try:
-            self.solver.add(z3.Not(cond))
-            return self.solver.check() == z3.unsat
-        finally:
-            self.solver.pop()
+        return self._quick([z3.Not(cond)]) == z3.unsat
 
     def choose(self, conds: List[Any], labels: Optional[List[str]] = None, key=None) -> int:
         """n-way fork on mutually exclusive, jointly exhaustive conditions."""
         n = len(conds)
         simp = []
+        orig = []
         for c in conds:
             if isinstance(c, bool):
                 simp.append(z3.BoolVal(c))
+                orig.append(z3.BoolVal(c))
             else:
                 simp.append(z3.simplify(c))
+                orig.append(c)
         # statically decided?
         live = [i for i, c in enumerate(simp) if not z3.is_false(c)]
         if len(live) == 1:
-            self.assume(simp[live[0]])
+            self.assume(orig[live[0]])
             return live[0]
         if not live:
             raise Infeasible()
@@ -122,7 +125,7 @@ class Explorer:
                 raise Infeasible()
             if len(feas_l) > 1:
                 raise NeedFork()
-            self.assume(simp[feas_l[0]])
+            self.assume(orig[feas_l[0]])
             return feas_l[0]
         if self.pos < len(self.script):
             idx = self.script[self.pos]
@@ -145,7 +148,7 @@ class Explorer:
             raise Infeasible()
         self.trace.append([feas, n])
         self.pos += 1
-        self.assume(simp[feas])
+        self.assume(orig[feas])
         lab = labels[feas] if labels else f'{feas}/{n}'
         self.st.sig.append(lab)
         return feas
@@ -173,10 +176,10 @@ class Explorer:
             self.st = PathState()
             self.fresh_counter = 0
             self.nofork = 0
-            self.solver.push()
+            pass
             self.paths_run += 1
             if self.paths_run > self.max_paths:
-                self.solver.pop()
+                pass
                 raise Untranslatable(f'more than {self.max_paths} paths')
             restart = False
             try:
@@ -194,7 +197,7 @@ class Explorer:
                 except Restart:
                     restart = True
             finally:
-                self.solver.pop()
+                pass
             if restart:
                 # same script prefix, but with a changed must_fork set: replay from the start
                 script = [c for c, _ in self.trace]
@@ -207,3 +210,27 @@ class Explorer:
                 break
             script = [c for c, _ in tr[:-1]] + [tr[-1][0] + 1]
         return results
+
+
+def _empty_fact(cond):
+    try:
+        k = cond.decl().kind()
+        if k in (z3.Z3_OP_LE, z3.Z3_OP_EQ) and cond.num_args() == 2:
+            a, b = cond.arg(0), cond.arg(1)
+            for x, y in ((a, b), (b, a)):
+                if z3.is_app(x) and x.decl().kind() == z3.Z3_OP_SEQ_LENGTH and z3.is_int_value(y) \
+                        and y.as_long() == 0 and (k == z3.Z3_OP_EQ or x is a):
+                    s = x.arg(0)
+                    return s == z3.Empty(s.sort())
+        if k == z3.Z3_OP_NOT:
+            inner = cond.arg(0)
+            ik = inner.decl().kind()
+            if ik in (z3.Z3_OP_GE, z3.Z3_OP_GT) and inner.num_args() == 2:
+                x, y = inner.arg(0), inner.arg(1)
+                if z3.is_app(x) and x.decl().kind() == z3.Z3_OP_SEQ_LENGTH and z3.is_int_value(y) \
+                        and ((ik == z3.Z3_OP_GE and y.as_long() == 1) or (ik == z3.Z3_OP_GT and y.as_long() == 0)):
+                    s = x.arg(0)
+                    return s == z3.Empty(s.sort())
+    except Exception:
+        return None
+    return None
